@@ -215,3 +215,9 @@ def build(sess):
     sess.explanation = ('Every return path of the four real functions is checked against the clamp / flag specification '
                         'taken from the property, over the reals and again over binary64; the agreement clause is a '
                         'path-by-path comparison of point_in_bounds with checkLimitsTol on the same symbolic inputs.')
+
+
+def fallback(sess):
+    r = native('n_c18', 'search', {})
+    r['what'] = 'n_c18.search'
+    return [r]
